@@ -116,7 +116,7 @@ def call_value(it, f, args, kwargs, fr, node, dotted):
             return call_value(it, f.a, args, kwargs, fr, node, dotted)
         return call_value(it, f.b, args, kwargs, fr, node, dotted)
     if isinstance(f, type):
-        if issubclass(f, BaseException):
+        if issubclass(f, BaseException) and not (it.sweep_mode() and f in it.registry.record_classes):
             return VExc(f, args)
         h = BUILTIN_TYPES.get(f)
         if h is not None:
